@@ -83,6 +83,7 @@ func main() {
 	noctl := flag.Bool("nocontrols", false, "skip positive controls (development)")
 	discover := flag.String("discover", "", "development: print candidate sites (exhaust)")
 	dumpProps := flag.Bool("dumpprops", false, "print the property/rule table as JSON")
+	all := flag.Bool("all", false, "development: run every property on one load of the tree (sections start with '== property Cnn')")
 	flag.Parse()
 	repoDir = *repo
 	if v := os.Getenv("VERIF_DIR"); v != "" {
@@ -173,6 +174,21 @@ func main() {
 	if *selftest {
 		os.Exit(runSelftest(*prop))
 	}
+	if *all {
+		// development / regression aid: every property on one load of the tree
+		pl, err := Load(nil)
+		if err == nil {
+			preloaded = pl
+		}
+		rc := 0
+		for _, id := range sortedKeys(props) {
+			fmt.Printf("== property %s\n", id)
+			if c := runProperty(props[id], *tier, seed, false, *noctl); c > rc {
+				rc = c
+			}
+		}
+		os.Exit(rc)
+	}
 	pd := props[*prop]
 	if pd == nil {
 		fmt.Fprintf(os.Stderr, "unknown property %q; known: %s\n", *prop, strings.Join(sortedKeys(props), " "))
@@ -180,6 +196,8 @@ func main() {
 	}
 	os.Exit(runProperty(pd, *tier, seed, *list, *noctl))
 }
+
+var preloaded *Program // set by -all
 
 func runProperty(pd *PropDef, tier string, seed int, list, noctl bool) int {
 	start := time.Now()
@@ -200,7 +218,10 @@ func runProperty(pd *PropDef, tier string, seed int, list, noctl bool) int {
 	ev.Coverage.TrustedBase = []string{"go/types", "go/ssa (x/tools v0.29.0)", "frozen rule tables in /verif/checker"}
 	ev.Coverage.Samples = []interface{}{}
 
-	p, err := Load(nil)
+	p, err := preloaded, error(nil)
+	if p == nil {
+		p, err = Load(nil)
+	}
 	if err != nil {
 		viol = append(viol, "LOAD-FAILURE: "+err.Error())
 		ev.Coverage.Info = append(ev.Coverage.Info, "load failed: "+err.Error())
